@@ -115,6 +115,16 @@ def prepare_scratch(work, log):
         raise RuntimeError('K1: thread_local LOCAL_SPAN_STACK not found in its expected form (lost anchor)')
     open(p, 'w').write(s2)
     log.append('K1 LOCAL_SPAN_STACK thread_local -> static single-thread cell (capacity 8 instead of 4096)')
+    # K6: rand::random() goes through rand's thread-local rng (a lazy TLS with a destructor:
+    # kani-compiler ICE); in the scratch copy every rand::random() of id.rs is kani::any()
+    p = os.path.join(d, 'fastrace/src/collector/id.rs')
+    s = open(p).read()
+    n6 = s.count('rand::random()')
+    if n6:
+        s = s.replace('rand::random()', 'verif_random()')
+        s += "\npub(crate) fn verif_random<T: kani::Arbitrary>() -> T { kani::any() }\n"
+        open(p, 'w').write(s)
+    log.append('K6 id.rs: %d x rand::random() -> kani::any()' % n6)
     # K5
     from . import rsx
     for ent in specs.get('widen', []):
@@ -148,13 +158,62 @@ def prepare_scratch(work, log):
     for ent in specs.get('modules', []):
         p = os.path.join(d, ent['append_to'])
         s = open(p).read()
-        s += '\n#[cfg(kani)]\n#[path = "%s"]\nmod %s;\n' % (os.path.join(VERIF, 'kani', ent['file']), ent['mod'])
+        s += '\n#[cfg(%s)]\n#[path = "%s"]\nmod %s;\n' % (ent.get('cfg', 'kani'), os.path.join(VERIF, 'kani', ent['file']), ent['mod'])
         open(p, 'w').write(s)
         log.append('K3 %s: harness module %s appended' % (ent['append_to'], ent['file']))
     return d
 
 
+def _tree_hash(krepo):
+    import hashlib
+    h = hashlib.sha256()
+    roots = [os.path.join(krepo, c, 'src') for c in ('fastrace', 'fastrace-futures', 'fastrace-jaeger', 'fastrace-datadog', 'fastrace-opentelemetry', 'fastrace-macro')]
+    roots += [os.path.join(VERIF, 'kani'), os.path.join(krepo, 'fastrace', 'Cargo.toml'), os.path.join(krepo, 'Cargo.lock')]
+    for root in roots:
+        if os.path.isfile(root):
+            h.update(open(root, 'rb').read())
+            continue
+        for dp, dn, fn in sorted(os.walk(root)):
+            dn.sort()
+            for f in sorted(fn):
+                h.update(f.encode())
+                h.update(open(os.path.join(dp, f), 'rb').read())
+    return h.hexdigest()
+
+
+_TREE_HASH = {}
+
+
 def run_one(name, spec, krepo, tier):
+    """results are cached under /verif/.cache/kani keyed by a hash of every source file of the
+    scratch crates, the harness files and the harness spec: the same harness serves several
+    properties and CBMC runs take minutes.  A cache hit is marked in the evidence."""
+    if krepo not in _TREE_HASH:
+        _TREE_HASH[krepo] = _tree_hash(krepo)
+    import hashlib
+    key = hashlib.sha256((_TREE_HASH[krepo] + json.dumps(spec, sort_keys=True) + name + tier + 'kani-0.68').encode()).hexdigest()[:32]
+    cdir = os.path.join(VERIF, '.cache', 'kani')
+    cfile = os.path.join(cdir, key + '.json')
+    if os.path.exists(cfile) and not os.environ.get('VERIF_NO_CACHE'):
+        try:
+            d = json.load(open(cfile))
+            r = KResult(name, spec)
+            r.status, r.infra, r.n_checks, r.wall_s, r.cmd = d['status'], d['infra'], d['n_checks'], d['wall_s'], d['cmd']
+            r.trusted = d['trusted']
+            r.failures = [KFailure(f['obligation'], f['message'], f['rendered']) for f in d['failures']]
+            r.cached = True
+            return r
+        except Exception:
+            pass
+    r = _run_one(name, spec, krepo, tier)
+    if r.status in ('ok', 'failed'):
+        os.makedirs(cdir, exist_ok=True)
+        json.dump({'status': r.status, 'infra': r.infra, 'n_checks': r.n_checks, 'wall_s': r.wall_s, 'cmd': r.cmd, 'trusted': r.trusted,
+                   'failures': [{'obligation': f.obligation, 'message': f.message, 'rendered': f.rendered} for f in r.failures]}, open(cfile, 'w'))
+    return r
+
+
+def _run_one(name, spec, krepo, tier):
     r = KResult(name, spec)
     t0 = time.time()
     pkg = spec.get('package', 'fastrace')
